@@ -70,9 +70,10 @@ class SchedPool:
     forked on first use (each starts from a copy of the parent's module state at that moment) and PERSIST across map calls of the
     same pool object, as real pool workers do; the parent's own state is untouched by what workers do."""
 
-    def __init__(self, order, workers, unordered_perm, state_modules):
+    def __init__(self, order, workers, unordered_perm, state_modules, pickled=False):
         self.order, self.workers, self.uperm, self.mods = order, workers, unordered_perm, state_modules
         self.wstate = {}
+        self.pickled = pickled      # the mapped function travels to a worker by pickling: every worker of a map call runs its own deep copy of the closure
         self.ncpus = self.nodes = max(workers) + 1 if workers else 1
 
     def __enter__(self):
@@ -97,10 +98,13 @@ class SchedPool:
         order = self.order[:n] if sorted(self.order[:n]) == list(range(n)) else list(range(n))
         parent = self._snapshot()
         res = [None] * n
+        clones = {}
         for t in order:
             w = self.workers[t] if t < len(self.workers) else 0
             self._restore(self.wstate.get(w, parent))
-            res[t] = f(items[t])
+            if self.pickled and w not in clones:
+                clones[w] = clone_closure(f)
+            res[t] = (clones[w] if self.pickled else f)(items[t])
             self.wstate[w] = self._snapshot()
         self._restore(parent)
         return res, order
@@ -124,6 +128,21 @@ class SchedPool:
         pass
 
 
+def clone_closure(f):
+    """what unpickling in a worker gives: the same code over a deep copy of everything the closure captured"""
+    import copy
+    if not getattr(f, '__closure__', None):
+        return f
+    cells = tuple(types.CellType(copy.deepcopy(c.cell_contents)) for c in f.__closure__)
+    return types.FunctionType(f.__code__, f.__globals__, f.__name__, f.__defaults__, cells)
+
+
+# an id-like column (more distinct values than sampled rows at ratio 0.5) among ordinary ones, for the runs in pairwise mode
+COLS_ID = ['fa', 'id', 'label']
+FRAME_ID = [['c', 'i0', '0'], ['c', 'i1', '1'], ['b', 'i2', '0'], ['a', 'i3', '1'], ['c', 'i4', '0'], ['c', 'i5', '1'], ['c', 'i6', '0'], ['a', 'i7', '1'],
+            ['c', 'i0', '0'], ['b', 'i1', '1'], ['a', 'i2', '0'], ['a', 'i7', '1']]
+
+
 def make_args(**over):
     a = types.SimpleNamespace(heuristic='MI-numba-randomized', label_column='label', target_ranking_only='True', combination_number_upper_bound=10 ** 4, reference_model_JSON='',
                               mi_stratified_sampling_ratio=1.0, feature_set_focus=None, transformers='none', explode_multivalue_features='False', subfeature_mapping='False',
@@ -133,7 +152,7 @@ def make_args(**over):
     return a
 
 
-def rank(cr, pool, args, shuffle=None, frame=None, fresh=True):
+def rank(cr, pool, args, shuffle=None, frame=None, fresh=True, cols=None):
     import pandas as pd
     if fresh:
         PL.fresh_state()
@@ -142,7 +161,7 @@ def rank(cr, pool, args, shuffle=None, frame=None, fresh=True):
     if shuffle is not None:
         cr.random = types.SimpleNamespace(shuffle=shuffle, seed=lambda *a, **k: None)
     try:
-        res = cr.mixed_rank_graph(pd.DataFrame(frame if frame is not None else (FRAME if float(args.mi_stratified_sampling_ratio) >= 1.0 else FRAME_R), columns=COLS), args, pool, PL.PB())
+        res = cr.mixed_rank_graph(pd.DataFrame(frame if frame is not None else (FRAME if float(args.mi_stratified_sampling_ratio) >= 1.0 else FRAME_R), columns=cols or COLS), args, pool, PL.PB())
     finally:
         if shuffle is not None:
             cr.random = random
@@ -187,6 +206,8 @@ def jobs(tier):
         for first in firsts:
             out.append({'cond': 'shuffle', 'mode': mode, 'pins': {'o0': first}, 'weight': 200, 'label': f'target_only={mode},first={first}'})
     out.append({'cond': 'setorder', 'pins': {}, 'weight': 100, 'label': 'focus set fa,fb,fc'})
+    for first in range(6):
+        out.append({'cond': 'schedule', 'workers': 2, 'ratio': 0.5, 'mode': 'False', 'idframe': True, 'pins': {'o0': first}, 'weight': 300, 'label': f'pairwise with an id-like column, ratio 0.5, pickled closures, first task={first}'})
     if b.get('pairwise-schedule'):
         # pairwise mode (13 tasks): the first two tasks to run and their workers are free, the rest follow in order on worker 0
         for first in range(13):
@@ -204,7 +225,9 @@ def run_job(job):
         return run_setorder(job)
     mode = job.get('mode', 'True')
     ratio = job.get('ratio', 1.0)
-    ref_trip, ref_g = rank(cr, PL.SerialPool(), make_args(target_ranking_only=mode, mi_stratified_sampling_ratio=ratio))
+    idf = bool(job.get('idframe'))
+    fk = dict(frame=FRAME_ID, cols=COLS_ID) if idf else {}
+    ref_trip, ref_g = rank(cr, SchedPool(list(range(64)), [i for i in range(64)], None, [cr, ie], pickled=True) if idf else PL.SerialPool(), make_args(target_ranking_only=mode, mi_stratified_sampling_ratio=ratio), **fk)
     ntask = len(ref_trip) // 2
     W = job.get('workers', 1)
     st['refB'] = rank(cr, PL.SerialPool(), make_args(target_ranking_only=mode), frame=FRAME_B)[0]
@@ -228,10 +251,10 @@ def run_job(job):
         order = lehmer(st['o'], ntask, lambda v, lo, hi: int(SInt(v, lo, hi)))
         if cond == 'schedule':
             workers = [int(SInt(v, 0, W - 1)) for v in st['w']]
-            pool = SchedPool(order, workers, None, [cr, ie])
-            trip, g = rank(cr, pool, make_args(target_ranking_only=mode, mi_stratified_sampling_ratio=ratio))
-            trip2, g2 = rank(cr, SchedPool(order, workers, None, [cr, ie]), make_args(target_ranking_only=mode, mi_stratified_sampling_ratio=ratio))
-            w = {'cond': cond, 'order': order, 'workers': workers, 'ratio': ratio}
+            pool = SchedPool(order, workers, None, [cr, ie], pickled=idf)
+            trip, g = rank(cr, pool, make_args(target_ranking_only=mode, mi_stratified_sampling_ratio=ratio), **fk)
+            trip2, g2 = rank(cr, SchedPool(order, workers, None, [cr, ie], pickled=idf), make_args(target_ranking_only=mode, mi_stratified_sampling_ratio=ratio), **fk)
+            w = {'cond': cond, 'order': order, 'workers': workers, 'ratio': ratio, 'mode': mode, 'idframe': idf}
             if ratio == 1.0:
                 # a second mini-batch with other data through the SAME pool (workers persist): its scores must be those of a fresh serial run
                 tripB, _ = rank(cr, pool, make_args(target_ranking_only=mode), frame=FRAME_B, fresh=False)
@@ -279,6 +302,39 @@ class SymSet(set):
         if SymSet.ORDER is not None and len(els) >= 3 and all(isinstance(e, str) for e in els):
             els = SymSet.ORDER(els)
         return iter(els)
+
+    # sets derived from a set are sets again: their iteration order is just as arbitrary
+    def intersection(self, *o):
+        return SymSet(set.intersection(self, *o))
+
+    def union(self, *o):
+        return SymSet(set.union(self, *o))
+
+    def difference(self, *o):
+        return SymSet(set.difference(self, *o))
+
+    def symmetric_difference(self, o):
+        return SymSet(set.symmetric_difference(self, o))
+
+    def copy(self):
+        return SymSet(set.copy(self))
+
+    def __and__(self, o):
+        return SymSet(set.__and__(self, o))
+
+    def __or__(self, o):
+        return SymSet(set.__or__(self, o))
+
+    def __sub__(self, o):
+        return SymSet(set.__sub__(self, o))
+
+    def __xor__(self, o):
+        return SymSet(set.__xor__(self, o))
+
+    __rand__, __ror__ = __and__, __or__
+
+    def __rsub__(self, o):
+        return SymSet(set.__rsub__(self, o))
 
 
 def load_transformed():
@@ -348,6 +404,39 @@ print(json.dumps(sorted([a, b, float(s)] for a, b, s in res[0].triplet_scores)))
 '''
 
 
+def replay_real_pool(cr, w):
+    """the real pathos process pool at several sizes (its chunking of the task list depends on the size) and task orders"""
+    from pathos.multiprocessing import ProcessingPool
+    import time as _t
+    outs = {}
+    real_sleep = _t.sleep
+    for nodes in (1, 2, 3, 6):
+        for oname, perm in (('given order', None), ('witness order', w['order']), ('rotated order', 'rot'), ('reversed order', 'rev')):
+            def shuf(lst, perm=perm):
+                if perm == 'rot':
+                    lst[:] = lst[1:] + lst[:1]
+                elif perm == 'rev':
+                    lst.reverse()
+                elif perm is not None and sorted(perm[:len(lst)]) == list(range(len(lst))):
+                    lst[:] = [lst[i] for i in perm[:len(lst)]]
+            pool = ProcessingPool(nodes)
+            try:
+                cr.time.sleep = lambda s: real_sleep(0.05)
+                trip, g = rank(cr, pool, make_args(target_ranking_only=w.get('mode', 'True'), mi_stratified_sampling_ratio=w.get('ratio', 1.0)), shuffle=shuf, frame=FRAME_ID, cols=COLS_ID)
+            finally:
+                cr.time.sleep = real_sleep
+                pool.close()
+                pool.join()
+                pool.clear()
+            outs[(nodes, oname)] = g
+    keys = sorted(outs)
+    for k in keys[1:]:
+        if outs[k] != outs[keys[0]]:
+            d = sorted(p for p in outs[k] if outs[k][p] != outs[keys[0]].get(p))[:3]
+            return {'reproduced': True, 'signature': 'C09:pool-size-dependent-scores', 'what': f'real pathos pool, frame with an id-like column, sampling ratio {w.get("ratio")}, pairwise: {keys[0][0]} worker(s), {keys[0][1]} and {k[0]} worker(s), {k[1]} give different scores for {d}: {[outs[keys[0]].get(p) for p in d]} vs {[outs[k][p] for p in d]}'}
+    return {'reproduced': False, 'what': 'identical scores for real pools of 1, 2, 3 and 6 workers and four task orders'}
+
+
 def replay(w):
     cr, cu, tr, ie = PL.real_modules()
     if w['cond'] == 'setorder':
@@ -367,11 +456,13 @@ def replay(w):
             return {'reproduced': True, 'signature': 'C09:focus-set-column-order', 'what': f'--feature_set_focus fa,fb,fc, pairwise, MI-numba-randomized: PYTHONHASHSEED={s1} and PYTHONHASHSEED={s2} give different pair scores, e.g. {d} (column order of the focused frame comes from set iteration order)'}
         return {'reproduced': False, 'what': 'identical scores under PYTHONHASHSEED 0..11'}
     ratio = w.get('ratio', 1.0)
+    if w.get('idframe'):
+        return replay_real_pool(cr, w)
     ref_trip, ref_g = rank(cr, PL.SerialPool(), make_args(target_ranking_only=w.get('mode', 'True'), mi_stratified_sampling_ratio=ratio))
     probs = []
     if w['cond'] == 'schedule':
         pool = SchedPool(w['order'], w['workers'], None, [cr, ie])
-        trip, g = rank(cr, pool, make_args(mi_stratified_sampling_ratio=ratio))
+        trip, g = rank(cr, pool, make_args(target_ranking_only=w.get('mode', 'True'), mi_stratified_sampling_ratio=ratio))
         if ratio == 1.0:
             refB = rank(cr, PL.SerialPool(), make_args(), frame=FRAME_B)[0]
             pool = SchedPool(w['order'], w['workers'], None, [cr, ie])
